@@ -6,6 +6,9 @@ import MTfitVerif.Model.RatioPdf
 import MTfitVerif.Model.Forward
 import MTfitVerif.Model.SampleStore
 import MTfitVerif.Model.Scatangle
+import MTfitVerif.Model.Binary
+import MTfitVerif.Model.Csv
+import MTfitVerif.Model.Acceptance
 /- dispatch table of the executable model -/
 namespace MTfitVerif.Driver
 open MTfitVerif Proto
@@ -233,7 +236,135 @@ def opScat : P String := do
   pure (s!"{recs.length} " ++ " ".intercalate (recs.map fun p =>
     s!"{p.1.length} " ++ outF p.2 ++ (String.join (p.1.map fun st => s!" {st.1} " ++ outFs [st.2.1, st.2.2]))))
 
+/-- `csv nlines line…` (hex strings) → events -/
+def opCsv : P String := do
+  let n ← nat; let lines ← many n str; done
+  match Csv.parseCsv lines with
+  | none => pure "err:classify"
+  | some evs =>
+    let row (r : Csv.Row) : String :=
+      " ".intercalate ([outS r.name, outS r.takeoff, outS r.azimuth, toString r.measured.length] ++ r.measured.map outS
+        ++ [toString r.error.length] ++ r.error.map outS)
+    let typ (t : String × List Csv.Row) : String :=
+      " ".intercalate ([outS t.1, toString t.2.length] ++ t.2.map row)
+    let ev (e : Csv.Event) : String :=
+      " ".intercalate ([outS e.uid, toString e.types.length] ++ e.types.map typ)
+    pure (" ".intercalate ([toString evs.length] ++ evs.map ev))
+
+/-- `hyp nlines (ntok tok…)…` → picks -/
+def opHyp : P String := do
+  let n ← nat
+  let lines ← many n (do let k ← nat; many k str); done
+  let ps := Csv.picks lines
+  pure (" ".intercalate ([toString ps.length] ++ ps.map fun p =>
+    " ".intercalate [outS p.station, outS p.phase, outS p.polarity, outS p.uncertainty, outS p.azimuth, outS p.takeoff]))
+
+def pRecord : P (Binary.Record Float) := do
+  let total ← nat; let conv ← bool; let lbe ← optFlt; let dkl ← optFlt; let ns ← nat
+  let ss ← many ns (do
+    let p ← flt; let lnp ← flt; let mt ← flts 6
+    let cv ← if conv then flts 13 else pure []
+    pure ({ p := p, lnp := lnp, mt := mt, conv := cv } : Binary.Sample Float))
+  pure { total := total, converted := conv, lbe := lbe, dkl := dkl, samples := ss }
+
+def outWord : Binary.Word Float → String
+  | .q n => s!"Q{n}"
+  | .b v => if v then "B1" else "B0"
+  | .d none => "Dnan"
+  | .d (some x) => "D" ++ outF x
+
+def outOpt : Option Float → String
+  | none => "nan"
+  | some x => outF x
+
+def outRecord (r : Binary.Record Float) : String :=
+  " ".intercalate ([toString r.total, outB r.converted, outOpt r.lbe, outOpt r.dkl, toString r.samples.length]
+    ++ r.samples.map fun s => outFs ([s.p, s.lnp] ++ s.mt ++ s.conv))
+
+/-- `binwrite nrec record…` → the word stream -/
+def opBinWrite : P String := do
+  let n ← nat; let rs ← many n pRecord; done
+  pure (" ".intercalate ((rs.flatMap Binary.write).map outWord))
+
+/-- `binread nwords word…` → records -/
+def opBinRead : P String := do
+  let n ← nat
+  let ws ← many n (do
+    let t ← tok
+    match t.toList with
+    | 'Q' :: r => pure (Binary.Word.q ((String.ofList r).toNat?.getD 0) : Binary.Word Float)
+    | 'B' :: r => pure (Binary.Word.b (r == ['1']))
+    | 'D' :: r =>
+      if r == ['n', 'a', 'n'] then pure (Binary.Word.d none)
+      else pure (Binary.Word.d (some (Float.ofBits (UInt64.ofNat ((String.ofList r).toNat?.getD 0)))))
+    | _ => throw "bad-op:word")
+  done
+  match Binary.read (n + 1) ws with
+  | none => pure "err:malformed"
+  | some rs => pure (" ".intercalate ([toString rs.length] ++ rs.map outRecord))
+
+def pTape : P (Acceptance.Tape Float) := do
+  let g ← flt; let d ← flt; let k ← flt; let h ← flt; let s ← flt
+  pure { gamma := g, delta := d, kappa := k, h := h, sigma := s }
+
+def pWidths : P (Acceptance.Widths Float) := do
+  let g ← flt; let d ← flt; let k ← flt; let h ← flt; let s ← flt; let gd ← flt; let dd ← flt; let pn ← flt
+  pure { gamma := g, delta := d, kappa := k, h := h, sigma := s, gammaDc := gd, deltaDc := dd, propNorm := pn }
+
+def priorOf (kind : Nat) : Bool → Acceptance.Tape Float → Float :=
+  if kind == 0 then Acceptance.uniformPrior else Acceptance.flatPrior
+
+/-- `transpdf dc w x x1` -/
+def opTransPdf : P String := do
+  let dc ← bool; let w ← pWidths; let x ← pTape; let x1 ← pTape; done
+  pure (outF (Acceptance.transPdf dc w x x1))
+
+/-- `prior kind dc x` -/
+def opPrior : P String := do
+  let k ← nat; let dc ← bool; let x ← pTape; done
+  pure (outF (priorOf k dc x))
+
+/-- `acceptmh kind dc w xi x Lxi Lx` -/
+def opAcceptMH : P String := do
+  let k ← nat; let dc ← bool; let w ← pWidths; let xi ← pTape; let x ← pTape; let lxi ← logp; let lx ← logp; done
+  pure (outF (Acceptance.acceptMH (priorOf k) dc w xi x lxi lx))
+
+/-- `acceptmulti kind n (dc w xi x)×n Lxi Lx` -/
+def opAcceptMulti : P String := do
+  let k ← nat; let n ← nat
+  let evs ← many n (do let dc ← bool; let w ← pWidths; let xi ← pTape; let x ← pTape; pure (dc, w, xi, x))
+  let lxi ← logp; let lx ← logp; done
+  pure (outF (Acceptance.acceptMulti (priorOf k) evs lxi lx))
+
+/-- `jumpq w x` -/
+def opJumpQ : P String := do
+  let w ← pWidths; let x ← pTape; done
+  pure (outF (Acceptance.jumpQ w x))
+
+/-- `acceptjump dir kind w xi x pDc Lxi Lx` (dir 0: DC→MT, 1: MT→DC) -/
+def opAcceptJump : P String := do
+  let dir ← nat; let k ← nat; let w ← pWidths; let xi ← pTape; let x ← pTape; let p ← flt
+  let lxi ← logp; let lx ← logp; done
+  pure (outF (if dir == 0 then Acceptance.acceptJumpUp (priorOf k) w xi x p lxi lx
+              else Acceptance.acceptJumpDown (priorOf k) w xi x p lxi lx))
+
+/-- `decide u a` -/
+def opDecide : P String := do
+  let u ← flt; let a ← flt; done
+  pure (outB (Acceptance.decide u a))
+
 def table : List (String × P String) := [
+  ("transpdf", opTransPdf),
+  ("prior", opPrior),
+  ("acceptmh", opAcceptMH),
+  ("acceptmulti", opAcceptMulti),
+  ("jumpq", opJumpQ),
+  ("acceptjump", opAcceptJump),
+  ("decide", opDecide),
+  ("csv", opCsv),
+  ("hyp", opHyp),
+  ("binwrite", opBinWrite),
+  ("binread", opBinRead),
   ("scat", opScat),
   ("sample", opSample),
   ("iterstop", opIterStop),
